@@ -155,7 +155,7 @@ class World:
         """Property that owns the oracle of the current operation."""
         if self.opname == 'scale':
             return 'C07'
-        if self.opname in ('ckpt', 'reload'):
+        if self.opname == 'ckpt':
             return 'C19'
         return 'C01'
 
@@ -823,6 +823,16 @@ class World:
             self.probe('ckpt_inexact_paraboloid_skipped')
             return
         if not exact:
+            gaps_ = sorted(abs(s_['t']) for s_ in self.model.surfs[1:-1]
+                           if math.isfinite(s_['t']))
+            if len(gaps_) >= 2 and gaps_[-1] > 3e3 * sum(gaps_[:-1]):
+                # a solve has put part of the lens thousands of lens lengths
+                # away: the ulp that the re-applied pickup may move a vertex
+                # by is an ulp of that distance, and a nearly collimated
+                # chief ray turns it into anything
+                self.probe('ckpt_inexact_displaced_lens_skipped')
+                return
+        if not exact:
             # inexact mode (a thickness pickup is re-applied on load and may
             # move a vertex by an ulp): the response of every compared
             # quantity to position noise of 1e-12 x lens size is measured on
@@ -830,7 +840,13 @@ class World:
             try:
                 import copy as _copy
                 dj = _copy.deepcopy(canon(ref))
-                size = 1.0 + self.model.zscale
+                # ... of the lens where it actually is: a solve may have put
+                # it 1e8 away from surface 1, and an ulp is relative to that
+                zs_ = [abs(sd_['geometry']['cs']['z'])
+                       for sd_ in dj['surface_group']['surfaces'][1:]
+                       if isinstance(sd_['geometry']['cs']['z'], (int, float))
+                       and math.isfinite(sd_['geometry']['cs']['z'])]
+                size = 1.0 + max([self.model.zscale] + zs_)
                 for k_, sd in enumerate(dj['surface_group']['surfaces']):
                     z = sd['geometry']['cs']['z']
                     if k_ >= 2 and isinstance(z, (int, float)) and \
